@@ -66,7 +66,7 @@ for k in sorted(PENDING):
     na.append({"property_id": k, "reason": "applicable to this technique (DESIGN.md §3) but its check is not registered yet: machinery under construction"})
 m = {
  "version": 1,
- "setup_cmd": "cd /verif && /venv/bin/python -m cidersim.build plain",
+ "setup_cmd": "cd /verif && /venv/bin/python -m cidersim.build plain sim simtrace",
  "hooks": {"guard": "CIDERPRESS_VERIF", "enable": "no source hooks: the C back end is rebuilt from /repo's working tree into /verif/.build by cidersim/build.py and loaded through the package's own load_library seam (cidersim/boot.py); nothing under /repo is modified",
            "baseline_off_cmd": "cd /repo && /venv/bin/python -m pytest -ra -q -p no:cacheprovider --timeout=900 --continue-on-collection-errors",
            "source_commits": [], "add_only": True},
